@@ -681,6 +681,9 @@ def dispatchPlain (t : Term) (ps : List Param) (final : Nat) : Term :=
     if ps.length ≤ 2 then t.cursorTo (argCount ps 0 - 1) (argCount ps 1 - 1) else t.complain "csi-param too many parameters"
   else if final = 0x68 then eachParam ps (fun t n => t.ansiMode n true) t  -- h
   else if final = 0x6c then eachParam ps (fun t n => t.ansiMode n false) t -- l
+  else if final = 0x72 then                                                -- r (only the reset form)
+    (if noParams ps then { t with cx := 0, cy := 0, pendingWrap := false, cursorKnown := true }
+     else t.complain "csi-param scrolling region not supported")
   else if 1 < ps.length then t.complain "csi-param too many parameters"
   else if final = 0x41 then t.cursorUp (argCount ps 0)
   else if final = 0x42 then t.cursorDown (argCount ps 0)
@@ -692,9 +695,6 @@ def dispatchPlain (t : Term) (ps : List Param) (final : Nat) : Term :=
     (if arg ps 0 0 ≤ 2 then t.eraseLine (arg ps 0 0) else t.complain "csi-param EL mode")
   else if final = 0x40 then t.insertChars (argCount ps 0)                  -- @
   else if final = 0x50 then t.deleteChars (argCount ps 0)                  -- P
-  else if final = 0x72 then                                                -- r (only the reset form)
-    (if noParams ps then { t with cx := 0, cy := 0, pendingWrap := false, cursorKnown := true }
-     else t.complain "csi-param scrolling region not supported")
   else t.complain ("csi-final " ++ hex2 final)
 
 def dispatchCsi (t : Term) (body : List Nat) (final : Nat) : Term :=
